@@ -144,7 +144,8 @@ pub fn exec(tag: i64, inp: &[i64]) -> Vec<i64> {
             })
         }
         42 => {
-            let s: String = inp[1..].iter().map(|&c| c as u8 as char).collect();
+            // code points (not bytes): non-ASCII characters are part of the input space
+            let s: String = inp[1..].iter().map(|&c| char::from_u32(c as u32).unwrap_or('?')).collect();
             with_nt!(inp[0], T => {
                 match region(|| s.parse::<T>()) {
                     None => vec![PANIC],
@@ -357,6 +358,20 @@ fn gen_strings(tier: Tier, em: &mut Emitter) {
                     let s = format!("{}{}{}", pre, n, suf);
                     emit(s.as_bytes(), "parse/boundary");
                 }
+            }
+        }
+        // characters that are "digits" to something other than an ASCII decimal parser: code
+        // points whose low byte is an ASCII digit, other scripts' digits, superscripts
+        for &cp in &[0x0131i64, 0x0139, 0x0430, 0x4E37, 0x0661, 0x0669, 0x06F1, 0x0967, 0xFF11, 0xFF10, 0x00B9, 0x00B2, 0x2460, 0x2081, 0x00BD, 0x1D7CF] {
+            for pat in 0..4 {
+                let mut inp = vec![t];
+                match pat {
+                    0 => inp.push(cp),
+                    1 => inp.extend_from_slice(&[49, cp]),
+                    2 => inp.extend_from_slice(&[cp, 49]),
+                    _ => inp.extend_from_slice(&[43, cp]),
+                }
+                em.emit_k("parse/non-ascii", 42, inp);
             }
         }
     }
